@@ -159,7 +159,7 @@ def judge_forms(f, snr=False):
         return forms.judge(lambda e: calculate_snr(e, (30.0, 300.0), 525.0, 10, 1.8), [ef], tuple(f), what="calculate_snr")
 
 
-SCAN_STEPS = [("band", 30, 300), ("band", 300, 1000), ("band", 330, 600), ("band", 30, 80), ("alt", 33.0), ("alt", 525.0), ("iono", False), ("nant", 4)]
+SCAN_STEPS = [("band", 30, 300), ("band", 300, 1000), ("band", 330, 600), ("band", 30, 80), ("alt", 33.0), ("alt", 525.0), ("iono", False), ("nant", 4), ("refused", 100.0, float("nan")), ("refused", 100.0, float("inf"))]  # ("refused": a call with an unusable band that must fail, after which the band is put back)
 
 
 def judge_scan(seq):
@@ -178,7 +178,7 @@ def judge_scan(seq):
         st = dict(states[-1])
         if op[0] == "band":
             st["low"], st["high"] = float(op[1]), float(op[2])
-        else:
+        elif op[0] != "refused":
             st[op[0]] = op[1]
         states.append(st)
     wants = []
@@ -201,6 +201,18 @@ def judge_scan(seq):
                 else:
                     r.low_frequency = st["low"]
                     r.high_frequency = st["high"]
+            elif op[0] == "refused":
+                r = cfg.detector.radio
+                try:
+                    r.high_frequency = op[2]
+                    r.low_frequency = op[1]
+                    call_radio(cfg, evs, tkey, obj=obj)
+                except Exception:
+                    pass
+                finally:
+                    r.low_frequency = min(st["low"], r.low_frequency) if r.low_frequency == r.low_frequency else st["low"]
+                    r.high_frequency = st["high"]
+                    r.low_frequency = st["low"]
             elif op[0] == "alt":
                 cfg.detector.initial_position.altitude = op[1]
             elif op[0] == "iono":
